@@ -98,8 +98,9 @@ def corr (prop unitsPath runPath : String) : IO UInt32 := do
                   st := { st with msgs := st.msgs.push s!"MISMATCH {name} f64 comp {j} in {ins} model {m.toBits} glm {g.toBits}" }
               match sp with
               | some (f, ks) =>
-                if f.kind != .frac then
+                if f.kind == .poly || f.kind == .syn then
                   let s := (f.spec ks j).eval f64Ops env
+                  let g := if f.isPlain then g else (f.post ks (fun i => .lit (Float.ofBits (outs.getD i 0).toUInt64).toInt64.toInt 1) j).eval f64Ops env
                   st := { st with specChecked := st.specChecked + 1 }
                   if !(s == g) then
                     st := { st with specMismatch := st.specMismatch + 1 }
@@ -148,8 +149,8 @@ def spec (prop unitsPath : String) (seed : UInt64) : IO UInt32 := do
     | .error e => IO.eprintln s!"parse error: {e}"; return 2
   let mut tbl : Std.HashMap String Glm.Unit := {}
   for u in units do tbl := tbl.insert u.name u
-  let look : String → List Nat → Glm.Unit := fun fam ks =>
-    let name := ks.foldl (fun s k => s ++ "_" ++ toString k) fam
+  let look : String → List Nat → Glm.Unit := fun un ks =>
+    let name := ks.foldl (fun s k => s ++ "_" ++ toString k) un
     tbl.getD name default
   let mut bad := 0
   let mut cex := 0
@@ -159,17 +160,19 @@ def spec (prop unitsPath : String) (seed : UInt64) : IO UInt32 := do
       total := total + 1
       if !(f.okAt look ks) then
         bad := bad + 1
-        let u := look f.name ks
+        let u := look f.unit ks
         let name := f.unitName ks
-        IO.println s!"FAIL {f.name} {name} kind={repr f.kind} outs={u.outs.length} expected={f.nOut ks}"
+        let o := u.outE
+        IO.println s!"FAIL {f.name} {name} kind={repr f.kind} outs={u.outs.length} expected={f.nRaw ks} decisionFree={u.leafOuts.isSome}"
         -- search a concrete input where model and spec differ
         let mut found := false
-        for xs in candidates u.nIn (f.kind == .frac) seed 2000 do
+        for xs in candidates u.nIn (f.kind == .frac || f.kind == .fracMod) seed 2000 do
           if found then break
           let env := mkEnv xs
           for j in [0:f.nOut ks] do
             if found then break
-            let m := (u.out j).eval f64Ops env
+            if f.compOK ks o j then continue
+            let m := if u.leafOuts.isSome then (f.post ks o j).eval f64Ops env else (u.out j).eval f64Ops env
             let s := (f.spec ks j).eval f64Ops env
             if !(m == s) && !(m.isNaN && s.isNaN) then
               found := true
